@@ -14,6 +14,10 @@ def c22(tier, seed):
         J(MPMC, "VerifB22aFullQueue", budget=0 if q else 1, max_paths=20000 if q else 400000, job_timeout_s=900 if q else 3000),
         J(MPSC, "VerifB22cAccumulator", producers=2, budget=1 if q else 2, max_paths=20000 if q else 400000, job_timeout_s=900 if q else 3000),
         J(MPSC, "VerifB22cCloseRace", budget=1 if q else 2, max_paths=20000 if q else 400000, job_timeout_s=900 if q else 3000),
+        J(MPSC, "VerifB22cSendAfterClose", budget=2 if q else 3, max_paths=20000 if q else 400000),
+        J(MPMC, "VerifK22bGrowKeepsOrder"),
+        J(MPMC, "VerifB22aAutoExtend", budget=2 if q else 3, max_paths=20000 if q else 400000),
+        J(MPMC, "VerifB22aCloseRace", budget=1 if q else 2, max_paths=20000 if q else 400000, job_timeout_s=900 if q else 3000),
     ]
     return jobs
 
